@@ -152,7 +152,16 @@ func c10Operations(p *Prog, f *ssa.Function) []*ssa.Function {
 		AllInstrs(g, func(in ssa.Instruction) {
 			switch x := in.(type) {
 			case *ssa.MakeClosure:
-				callers[x.Fn.(*ssa.Function)] = append(callers[x.Fn.(*ssa.Function)], g)
+				cf := x.Fn.(*ssa.Function)
+				callers[cf] = append(callers[cf], g)
+				// a method value (store.ensureOCILayoutFile as a step of a table): the bound wrapper calls the method
+				if cf.Synthetic != "" && len(cf.Blocks) > 0 {
+					for _, call := range Calls(cf, func(string) bool { return true }) {
+						if h := StaticCallee(call); h != nil {
+							callers[h] = append(callers[h], g)
+						}
+					}
+				}
 			case ssa.CallInstruction:
 				if h := StaticCallee(x); h != nil {
 					callers[h] = append(callers[h], g)
@@ -209,6 +218,28 @@ func c10R1(c *Ctx) {
 		return
 	}
 	raw := Inventory(fns, func(n string) bool { return fsMutators[n] })
+	// an effect reached through an interface method (closeInto(&err, c io.Closer) { c.Close() }): when everything
+	// the helper is handed at its call sites is an *os.File, the call is the file's method
+	for _, f := range fns {
+		for _, call := range Calls(f, func(string) bool { return true }) {
+			cc := call.Common()
+			if !cc.IsInvoke() || !fsMutators["(*os.File)."+cc.Method.Name()] {
+				continue
+			}
+			os_, okO := c09Origins(c.P, cc.Value, 3, nil)
+			all := okO && len(os_) > 0
+			for _, o := range os_ {
+				t := o.Type()
+				if mi, ok := o.(*ssa.MakeInterface); ok {
+					t = mi.X.Type()
+				}
+				all = all && short(t.String()) == "*os.File"
+			}
+			if all {
+				raw = append(raw, EffectSite{f, call, "(*os.File)." + cc.Method.Name()})
+			}
+		}
+	}
 	var sites []EffectSite
 	opsOf := map[*ssa.Function][]*ssa.Function{}
 	for _, s := range raw {
